@@ -905,9 +905,19 @@ struct Explorer {
       if (v) {
         set<string> failed_ids;
         for (int c : failed) failed_ids.insert(r.cmds[c].spec.id());
+        // a failure among the commands that bring the manifest up to date: the build proper is not attempted with a manifest
+        // that could not be regenerated -- everything outside that first build is "downstream of the manifest"
+        set<int> mf;
+        bool regen_failed = false;
+        if (v->producer.count("build.ninja")) {
+          Upstream(*v, v->producer.at("build.ninja"), &mf);
+          mf.insert(v->producer.at("build.ninja"));
+          for (int u : mf) if (failed_ids.count(v->stmts[u].id)) regen_failed = true;
+        }
         for (auto& bc : baseline->cmds) {
           string id = bc.spec.id();
           if (Started(r, id)) continue;
+          if (regen_failed) { auto pm = v->producer.find(id); if (pm == v->producer.end() || !mf.count(pm->second)) continue; }
           auto p = v->producer.find(id);
           if (p == v->producer.end()) continue;
           set<int> up;
